@@ -21,6 +21,12 @@ const ASCII_WORDS: [&str; 24] = [
     "a", "b", "c", "name", "given_name", "family_name", "email", "address", "street", "city", "country", "age", "birthdate",
     "phone", "nationalities", "x", "y", "z", "data", "items", "id", "tags", "k", "v",
 ];
+/// names that mean something to some layer of some stack (registered JWT / VC claim names, JSONPath and JSON Pointer syntax,
+/// URL escapes): to this library they are ordinary member names
+pub const NOTABLE_NAMES: [&str; 30] = [
+    "status", "vct", "jti", "nonce", "sd_hash", "typ", "alg", "kid", "jwk", "x5c", "type", "@context", "$", "$ref", "@", "*", "#", "..",
+    "~0", "~1", "a~1b", "PROGRA~1", "a/b", "%2F", "%7E", "key with spaces", "0", "-1", "true", "null",
+];
 /// names the generator never produces on its own (spec-reserved or interpreted by the JWT layer)
 pub const FORBIDDEN_NAMES: [&str; 10] = ["_sd", "...", "_sd_alg", "cnf", "aud", "sub", "nbf", "exp", "iss", "iat"];
 
@@ -71,6 +77,9 @@ pub fn gen_string(r: &mut Rng, plain: bool) -> String {
 pub fn gen_name(r: &mut Rng, cfg: &TreeCfg) -> String {
     loop {
         let mut s = if r.chance(3, 4) { r.pick(&ASCII_WORDS).to_string() } else { gen_string(r, cfg.plain) };
+        if !cfg.plain && r.chance(1, 12) {
+            s = r.pick(&NOTABLE_NAMES).to_string();
+        }
         if cfg.path_safe_names {
             s = s.replace(['.', '['], "_");
         }
@@ -533,4 +542,92 @@ pub fn all_selections(v: &Value, limit: usize) -> Vec<Value> {
     }
     acc.truncate(limit);
     acc
+}
+
+
+// ---------------------------------------------------------------------------
+// deep and wide claim sets: thresholds on nesting depth or on counts are invisible to moderate random trees
+
+/// a chain `depth` levels deep (objects and arrays mixed), with a few siblings on the way and leaves at the bottom, as the
+/// member "deep" of an otherwise small claims object
+pub fn gen_deep_claims(r: &mut Rng, depth: usize, now: u64) -> Value {
+    gen_deep_claims_with(r, depth, now, usize::MAX)
+}
+
+/// as `gen_deep_claims` with at most `max_arrays` array levels (the path-grammar specification enumerates both spellings of
+/// every index step, so Custom paths through many array levels cost it 2^levels)
+pub fn gen_deep_claims_with(r: &mut Rng, depth: usize, now: u64, max_arrays: usize) -> Value {
+    let mut v = json!({"leaf": "bottom", "pair": [1, "two"], "o": {"in": true}});
+    let mut arrays = 0usize;
+    for d in 0..depth {
+        let mut pick = r.below(5);
+        if pick >= 3 {
+            if arrays >= max_arrays {
+                pick = r.below(3);
+            } else {
+                arrays += 1;
+            }
+        }
+        v = match pick {
+            0 | 1 => json!({ "n": v }),
+            2 => json!({ "n": v, "side": format!("s{}", d) }),
+            3 => json!([v]),
+            _ => json!([format!("e{}", d), v]),
+        };
+    }
+    json!({"iss": "https://issuer.example", "exp": now + 100000, "deep": v, "flat": "x"})
+}
+
+/// nesting depth of a value (a leaf has depth 0)
+pub fn depth_of(v: &Value) -> usize {
+    match v {
+        Value::Object(m) => 1 + m.values().map(depth_of).max().unwrap_or(0),
+        Value::Array(a) => 1 + a.iter().map(depth_of).max().unwrap_or(0),
+        _ => 0,
+    }
+}
+
+/// a selection that descends the whole tree and selects every node
+pub fn select_everything(v: &Value) -> Value {
+    select_all(v)
+}
+
+/// an object with `n` members (and an array with `n` elements) of small leaves
+pub fn gen_wide_claims(r: &mut Rng, n: usize, now: u64) -> Value {
+    let mut m = Map::new();
+    m.insert("iss".into(), json!("https://issuer.example"));
+    m.insert("exp".into(), json!(now + 100000));
+    let mut wide = Map::new();
+    for i in 0..n {
+        wide.insert(format!("m{:04}", i), if i % 7 == 0 { json!({"v": i}) } else { json!(i) });
+    }
+    if r.chance(1, 2) {
+        m.insert("wide".into(), Value::Object(wide));
+    } else {
+        for (k, v) in wide {
+            m.insert(k, v);
+        }
+    }
+    m.insert("list".into(), Value::Array((0..n / 2).map(|i| json!(format!("e{}", i))).collect()));
+    Value::Object(m)
+}
+
+/// claim sets whose member names look like syntax to some layer (JSONPath roots, JSON Pointer escapes, URL escapes, registered
+/// claim names), each with Custom paths through them in both index spellings
+pub fn notable_claims(now: u64) -> Vec<(Value, Vec<String>)> {
+    let base = |m: Value| {
+        let mut o = m.as_object().cloned().unwrap_or_default();
+        o.insert("iss".into(), json!("https://issuer.example"));
+        o.insert("exp".into(), json!(now + 100000));
+        Value::Object(o)
+    };
+    vec![
+        (base(json!({"$": {"x": 1, "y": ["p", "q"]}, "plain": true})), vec!["$.$.x".into(), "$.$.y.[1]".into(), "$.$.y[0]".into()]),
+        (base(json!({"$": [10, 20, 30], "$ref": {"$": 1}})), vec!["$.$.[1]".into(), "$.$ref.$".into()]),
+        (base(json!({"a~1b": {"in": 1}, "PROGRA~1": {"ok": 1, "deep": {"z": [1]}}, "~0": [{"k": 1}]})), vec!["$.a~1b.in".into(), "$.PROGRA~1.deep.z[0]".into(), "$.~0[0].k".into()]),
+        (base(json!({"a/b": {"c/d": 1}, "%2F": {"x": [1, 2]}, "@": {"*": 1}, "#": [[1], [2]]})), vec!["$.a/b.c/d".into(), "$.%2F.x.[0]".into(), "$.@.*".into(), "$.#[1][0]".into()]),
+        (base(json!({"status": {"status_list": {"idx": 7, "uri": "https://s.example"}}, "vct": "x", "jti": {"n": 1}, "type": ["A", "B"]})), vec!["$.status.status_list.idx".into(), "$.status".into(), "$.jti.n".into(), "$.type[1]".into()]),
+        (base(json!({"key with spaces": {"tab\tname": 1, "line\nbreak": {"x": 1}, "\u{1}": 2}, "0": {"-1": [true]}, "true": {"null": null}})), vec!["$.key with spaces.tab\tname".into(), "$.key with spaces.line\nbreak.x".into(), "$.0.-1[0]".into(), "$.true.null".into()]),
+        (base(json!({"cnf": {"kid": "k-1", "jwk2": {"kty": "EC"}}, "other": 1})), vec!["$.cnf.kid".into(), "$.cnf.jwk2.kty".into()]),
+    ]
 }
